@@ -58,7 +58,9 @@ CLAIMED = {
              "'blocked forever' observable; each scenario record is validated by TLC. The hand-over of outbound blocks between sending "
              "threads, the receiver loop and the connection thread's Separate.req is the model SendHandover (CloseFinishes, "
              "NoStrandedBlock; the original early return after a failed send is a witness TLC must refute); 1-3 threads sending "
-             "through the real HsmsProtocol over the real TCP classes while the peer leaves must end NOT CONNECTED with disable() returning.",
+             "through the real HsmsProtocol over the real TCP classes while the peer leaves must end NOT CONNECTED with disable() returning. "
+             "The restart of the listening / connection thread by the close handling against disable() is TcpServerRestart / "
+             "TcpClientRestart (witnesses of fixes 8526f9b / 8a4dcbb); a client disabled while its close handling runs must not connect again.",
         note="FakeConnection mirrors TcpConnection's close sequence; kernel TCP behaviour is not part of this check; "
              "schedules sampled",
         category="fault_enumeration",
